@@ -313,8 +313,9 @@ impl Prop for C14P {
                 sec_ex("corpus-truncations", corpus_for_mutation().len() as u64),
                 sec("nesting-families", tier.pick(24 * 12, 24 * 29)),
                 sec("cli-contract", tier.pick(500, 12_000)),
+                sec("generated-and-perturbed-programs", tier.pick(15_000, 300_000)),
             ],
-            "all byte strings of <=2 bytes; all token sequences of <=4 (quick) / <=5 (thorough) tokens over the 28 grammar terminals fed to parse() as constructed token slices; random byte strings <=64 bytes incl. invalid UTF-8; random token soups <=60 tokens; every single-token deletion, insertion and substitution (28 kinds) of every corpus program; every truncation of every corpus program at a token boundary; unbalanced/nested families to depth 200; a subset of all classes through `gram check` at the process boundary; non-trivial = distinct input that got past the tokenizer",
+            "all byte strings of <=2 bytes; all token sequences of <=4 (quick) / <=5 (thorough) tokens over the 28 grammar terminals fed to parse() as constructed token slices; random byte strings <=64 bytes incl. invalid UTF-8; random token soups <=60 tokens; every single-token deletion, insertion and substitution (28 kinds) of every corpus program; every truncation of every corpus program at a token boundary; unbalanced/nested families to depth 200; generated typed programs and their ill-typed perturbations in varied parenthesisation and multi-line layout (non-ASCII indentation, CRLF) so that every diagnostic of the checker is rendered; a subset of all classes through `gram check` at the process boundary; non-trivial = distinct input that got past the tokenizer",
         );
         p.assumptions = vec![
             "a wall-clock timeout or stack exhaustion at the process boundary is recorded as inconclusive (possible divergence written in the program), never as a violation; an in-process worker death during type_check is a violation only when the reference checker accepts the parsed program within its fuel (then nothing in the program can make the checker diverge)".into(),
@@ -476,6 +477,36 @@ impl Prop for C14P {
                 check_library(ctx, &s, true);
                 if idx % 6 == 0 {
                     check_cli(ctx, s.as_bytes(), false);
+                }
+            }
+            "generated-and-perturbed-programs" => {
+                // typed programs and their ill-typed perturbations, printed with varied
+                // parenthesisation and multi-line layout: every diagnostic the checker produces is
+                // rendered (listing of its range), none of which may panic
+                let mut r = Rng::for_case(ctx.seed, 9, idx);
+                let mode = if idx % 3 == 0 { crate::gen_prog::Mode::Inferred } else { crate::gen_prog::Mode::Explicit };
+                let rec = r.chance(1, 6);
+                let ty = match r.below(4) {
+                    0 => crate::gen_prog::GT::Bool,
+                    1 => crate::gen_prog::GT::arrow(crate::gen_prog::GT::Int, crate::gen_prog::GT::Int),
+                    _ => crate::gen_prog::GT::Int,
+                };
+                let p = crate::gen_prog::gen_program_with(&mut r, mode, &ty, rec);
+                let h = if idx % 4 != 0 { crate::perturb::perturb(&p.h, &mut r).map_or(p.h.clone(), |x| x.0) } else { p.h.clone() };
+                let mut style = crate::printer::Style::varied(&mut r);
+                if r.chance(1, 2) {
+                    style.extra_parens = 25;
+                    style.break_lines = 30;
+                }
+                let mut src = crate::printer::print(&h, &style, idx).text;
+                if r.chance(1, 4) {
+                    // non-ASCII indentation and CRLF line ends
+                    src = src.replace("\n  ", "\n\u{3000}\u{3000}").replace('\n', if r.chance(1, 2) { "\r\n" } else { "\n" });
+                }
+                match check_library(ctx, &src, true) {
+                    Reached::TypeErr => ctx.count("generated:type-errors-rendered"),
+                    Reached::Accepted => ctx.count("generated:accepted"),
+                    _ => ctx.count("generated:rejected-earlier"),
                 }
             }
             "cli-contract" => {
